@@ -422,6 +422,64 @@ def r_invalid_types_source(ck: Checker) -> None:
         ck.incomplete("R-GATE", None, None, "no construction of InvalidTypes found (1 confirmed by hand)")
 
 
+def r_resolved_verbatim(ck: Checker) -> None:
+    """The type a value is checked against is the field's whole resolved annotation: the second argument of every FieldTypeInfo(...)
+    built in pyoak.typing is a name bound once (a parameter, or the hint read from the resolved table).  Positive pattern: that name is
+    bound again from a *part* of the annotation (get_args(...), __args__, a member picked out of them) before it is stored — the stored
+    type is then narrower than the annotation, e.g. the `| None` of an optional collection is lost and None stops conforming."""
+    from .state_rules import _raw_functions
+    m_ = ck.repo.mod(TYPING)
+    n = 0
+    PART = ("get_args", "__args__", "get_origin", "__origin__")
+    for q, fn, _cls in _raw_functions(m_):
+        for x in ast.walk(fn):
+            if not (isinstance(x, ast.Call) and (dotted(x.func) or "").split(".")[-1] == "FieldTypeInfo"):
+                continue
+            arg = x.args[1] if len(x.args) > 1 else next((k.value for k in x.keywords if k.arg == "resolved_type"), None)
+            if arg is None:
+                continue
+            n += 1
+            what = f"{q}: the type stored as resolved_type is the whole resolved annotation"
+            if not isinstance(arg, ast.Name):
+                if any((isinstance(y, ast.Name) and y.id in PART) or (isinstance(y, ast.Attribute) and y.attr in PART) for y in ast.walk(arg)):
+                    ck.violation("R-GATE", (m_.rel, q), x, what, positive=True,
+                                 construct=f"{q}: FieldTypeInfo(..., {norm(arg)[:40]}) stores a part of the annotation — values the whole annotation admits (None of an optional) stop conforming")
+                    continue
+                raise Unsupported(f"{q}: resolved type given as {norm(arg)[:40]}", x)
+            rebinds = [a for a in ast.walk(fn) if (isinstance(a, ast.Assign) and any(isinstance(t, ast.Name) and t.id == arg.id for t in a.targets))
+                       or (isinstance(a, (ast.AnnAssign, ast.AugAssign)) and isinstance(a.target, ast.Name) and a.target.id == arg.id and getattr(a, "value", None) is not None)
+                       or (isinstance(a, ast.NamedExpr) and a.target.id == arg.id)]
+            is_param = arg.id in {a.arg for a in fn.args.args + fn.args.kwonlyargs + fn.args.posonlyargs}
+            is_param = is_param or any(isinstance(a, (ast.For, ast.comprehension)) and any(isinstance(y, ast.Name) and y.id == arg.id for y in ast.walk(a.target)) for a in ast.walk(fn))
+            extra = rebinds if is_param else rebinds[1:] if len(rebinds) > 1 else []
+            # locals that hold parts of the annotation (members = get_args(t); m = members[0])
+            parts: set[str] = set()
+            for _ in range(3):
+                for a in ast.walk(fn):
+                    tgt = None
+                    if isinstance(a, ast.Assign) and len(a.targets) == 1:
+                        tgt, val = a.targets[0], a.value
+                    elif isinstance(a, ast.NamedExpr):
+                        tgt, val = a.target, a.value
+                    elif isinstance(a, (ast.For, ast.comprehension)):
+                        tgt, val = a.target, a.iter
+                    if tgt is None:
+                        continue
+                    if any((isinstance(y, ast.Name) and (y.id in PART or y.id in parts)) or (isinstance(y, ast.Attribute) and y.attr in PART) for y in ast.walk(val)):
+                        parts |= {y.id for y in ast.walk(tgt) if isinstance(y, ast.Name)}
+            bad = [r for r in extra if any((isinstance(y, ast.Name) and (y.id in PART or y.id in parts)) or (isinstance(y, ast.Attribute) and y.attr in PART)
+                                           for y in ast.walk(r.value))]
+            if bad:
+                ck.violation("R-GATE", (m_.rel, q), bad[0], what, positive=True,
+                             construct=f"{q}: `{norm(bad[0])[:60]}` re-binds the name that is stored as resolved_type to a part of the annotation — values the whole annotation admits (None of an optional) stop conforming")
+            elif extra:
+                raise Unsupported(f"{q}: `{arg.id}` (stored as resolved_type) is bound again: {norm(extra[0])[:50]}", extra[0])
+            else:
+                ck.holds("R-GATE", (m_.rel, q), x, what)
+    if n < 2:
+        ck.incomplete("R-GATE", None, None, f"only {n} FieldTypeInfo constructions found in pyoak.typing (2 confirmed by hand: get_type_info, process_node_fields)")
+
+
 def r_member_by_eq(ck: Checker) -> None:
     """`value in C` inside is_instance: the candidate is an arbitrary object (a list given for a Literal field).  Membership in a tuple or
     list compares with ==; membership in a set / frozenset / dict hashes the candidate first and raises TypeError for an unhashable one, so
@@ -479,6 +537,7 @@ def run(ck: Checker) -> None:
     ck.guard("R-BOOLGUARD-TT", lambda: r_member_by_eq(ck))
     ck.guard("R-BOOLGUARD-TT", lambda: r_items_recursive(ck))
     ck.guard("R-GATE", lambda: r_invalid_types_source(ck))
+    ck.guard("R-GATE", lambda: r_resolved_verbatim(ck))
     from . import state_rules as S13
     ck.guard("R-GATE", lambda: S13.r_iter_stored(ck, "R-GATE", ("pyoak.node", "pyoak.typing", "pyoak.types")))
     ck.guard("R-BOOLGUARD-TT", lambda: S13.r_memo_keeps_alive(ck, "R-BOOLGUARD-TT", (TYPING, NODE), "the value of a field is checked each time it is given"))
